@@ -227,3 +227,19 @@ Proof.
   split; [exact HP|]. split; [exact HL1|]. split; [symmetry; exact HL2|].
   apply rt_ok_app_r in HR. apply rt_ok_cons in HR. tauto.
 Qed.
+
+(* the same for any call: its response is the specification's response in the state after [before] *)
+Theorem call_snapshot : forall s cs x,
+  linearizable s cs -> In x cs ->
+  exists before after,
+    Permutation (before ++ x :: after) cs /\ legal s before /\
+    c_resp x = snd (seq_step (run_calls s before) (c_op x)) /\
+    Forall (fun u => c_inv x < c_res u) after.
+Proof.
+  intros s cs x [order [HP [HL HR]]] Hin.
+  assert (Hx : In x order) by (eapply Permutation_in; [apply Permutation_sym; exact HP | exact Hin]).
+  apply in_split in Hx. destruct Hx as [l1 [l2 E]]. subst order.
+  exists l1, l2. apply legal_app in HL. destruct HL as [HL1 HL2]. simpl in HL2. destruct HL2 as [HL2 _].
+  split; [exact HP|]. split; [exact HL1|]. split; [symmetry; exact HL2|].
+  apply rt_ok_app_r in HR. apply rt_ok_cons in HR. tauto.
+Qed.
